@@ -64,14 +64,14 @@ CLAIMS.update({
         text=('Theorems C04_match_sound / C04_variant_match (a stored reference matches a request only if no Vary member is "*" and the two '
               'requests agree after the documented normalisation on every nominated field; all Vary lines count), C04_star, '
               'C04_encoding_injective (NUL-delimited name/value encoding determines the variant map), C04_id_injective (equal variant ids '
-              'imply equal maps, under the stated hypothesis that FNV-64a does not collide on the two encodings). Monitor mon_C04 on the real '
+              'imply equal maps, under the stated hypothesis that FNV-64a does not collide on the two encodings), C04_history_variant (along every sequential history the entry under a matching reference was filed for a request that was sent to the origin for the same URL key and selects the same variant, given that equal keys mean equal maps for the two; store invariant InvS, kept under every interleaving too: C16_store_invariant). Monitor mon_C04 on the real '
               'transport over histories with changing Vary values and adversarial header values.'),
         note=COMMON_NOTE + ' The 64-bit FNV-1a digest is not injective; collision-freeness on the encodings at hand is a named hypothesis of C04_id_injective.'),
     'C07': dict(
         text=('Theorems C07_unsafe_methods (unsafe = not in the IANA safe column), C07_shape, C07_invalidates (after InvalidateCache, for every '
               'store content: the target index, every entry it listed, every same-origin Location/Content-Location index and its entries are gone, '
-              'and only those keys were removed), C07_cross_origin_untouched, C07_later (the next GET for the key goes to the origin). '
-              'Monitor mon_C07 over histories with arbitrary method tokens and Location forms on the real transport.'),
+              'and only those keys were removed), C07_cross_origin_untouched, C07_later (the next GET for the key goes to the origin), C07_late_validation_discarded (a background validation whose answer arrives after the invalidation writes nothing). '
+              'Monitor mon_C07 over histories with arbitrary method tokens and Location forms on the real transport; experiment with the answer to a background validation held across the unsafe request.'),
         note=COMMON_NOTE + ' URL parsing/resolution of Location values is the model\'s re-implementation of net/url for the generated grammar; other values are OutOfModel.'),
     'C08': dict(
         text=('Theorems C08_freshen (after a 304 the store holds the merged entry with the stored status/body and the instants of this exchange), '
